@@ -456,6 +456,29 @@ def run_case(case, ctx, full_output=True):
         del rec.calls[n_calls:]
         now = [np.asarray(val)] + ([np.asarray(v) for v in info] if info is not None else [])
         res['changed_by_later_call'] = any(a.tobytes() != b.tobytes() for a, b in zip(keep, now))
+        if not res['changed_by_later_call'] and val.flags.writeable and int(abs(xs[0]) * 1e4) % 3 == 0:
+            # ... and what the caller does to the arrays it was given (scaling the result in place) does not reach the library: the
+            # same request again gives the same numbers
+            snap = {k: (list(v) if isinstance(v, list) else v) for k, v in _OBS.items()}
+            n_calls = len(rec.calls)
+            try:
+                val *= 0.5
+                if info is not None:
+                    for v_ in info:
+                        if isinstance(v_, np.ndarray) and v_.flags.writeable and v_.dtype.kind == 'f':
+                            v_ += 1.0
+                with np.errstate(all='ignore'):
+                    again = dobj(x)
+                again_v = np.asarray(again[0] if full_output else again)
+                res['repeated_request_differs'] = bool(again_v.tobytes() != keep[0].tobytes())
+            except Exception:
+                res['repeated_request_differs'] = True
+            _OBS.clear()
+            _OBS.update(snap)
+            del rec.calls[n_calls:]
+            res['value'] = keep[0]
+            if info is not None:
+                res['info'] = type(info)(*[k_ if isinstance(o_, np.ndarray) else o_ for k_, o_ in zip(keep[1:], info)])
     res['f_finite'] = all(c.out_finite is not False for c in rec.calls)
     return res
 
